@@ -19,7 +19,7 @@ CLAIM = ("An optimality property; decided are its structural necessary condition
          "as a whole is not decided (run-time eligibility and contention).")
 EXPLANATION = ("Phase sequences of the enumerated loop paths; element facts of the allocator's task loop; exits of the allocation "
                "loops; bounded closure test of the finish check by concrete interpretation of small chains; gate tables.")
-ASSUMPTIONS = ["closure of the finish check is established for chains up to length 3 (quick) / 4 (thorough), not for arbitrary length"]
+ASSUMPTIONS = ["closure of the finish check is established for chains up to length 3 (quick) / 5 (thorough), not for arbitrary length"]
 TECHNIQUE = "event-order queries on interpreted paths + bounded closure test by concrete abstract interpretation"
 
 ORDER = ["finish-check", "removal", "ready-check", "pert", "resource-state", "allocate", "working-check", "cost", "perform", "record-workflow", "time"]
@@ -145,7 +145,7 @@ def r6_3(ctx):
 
 def r6_4(ctx):
     ctx.begin("R6.4", "finish check is closed over FF/SF chains; gates accept every satisfied dependency", floor=20)
-    res = finish_closure(ctx, max_chain=4 if ctx.thorough else 3)
+    res = finish_closure(ctx, max_chain=5 if ctx.thorough else 3)
     wf_check = ctx.repo.method(WORKFLOW, "check_state")
     bad = [r for r in res if not r[3]]
     ctx.instance("finish-closure", cells=len(res), sample={"chains": len(res), "not_closed": len(bad)})
